@@ -87,8 +87,8 @@ func (c *Config) Markdown(title string, r io.Reader, dirents []os.FileInfo, ctx 
 	// move available and valid front matters to the meta values
 	meta := make(map[string]string)
 	for _, val := range recognizedMetaTags {
-		if mVal, ok := mdata.Variables[val]; ok {
-			meta[val] = mVal.(string)
+		if mVal, ok := mdata.Variables[val].(string); ok {
+			meta[val] = mVal
 		}
 	}
 
